@@ -285,6 +285,7 @@ EXTRA = [
     ("inherited-setter-receiver", "var p = {set v(x) { this.stored = x; }}; var c = Object.create(p); c.v = 5; [c.stored, p.stored, Object.keys(c), c.hasOwnProperty('v')]"),
     ("keys-literal-accessor-then-data", "[Object.keys({get a() { return 1; }, b: 1, a: 2}), Object.keys({a: 1, get b() { return 1; }, set a(v) { }}), JSON.stringify({get a() { return 1; }, b: 1, a: 2})]"),
     ("keys-values-entries-of-array-and-string", "var a = [5, 6]; a.x = 1; [Object.keys(a), Object.values(a), Object.entries(a), Object.keys('ab'), Object.values('ab'), Object.entries([7]), Object.keys([])]"),
+    ("arrow-arguments-lexical", "function outer() { var f = () => arguments.length; var g = function () { return arguments.length; }; return [f(1, 2, 3), g(1, 2, 3), arguments[0]]; } outer('a', 'b')"),
     ("keys-after-delete-and-readd", "var o = {a: 1, b: 2, c: 3}; delete o.a; o.a = 4; Object.defineProperty(o, 'b', {get: function () { return 9; }, enumerable: true, configurable: true}); [Object.keys(o), JSON.stringify(o)]"),
     ("defineProperty-value", "var o = {}; Object.defineProperty(o, 'k', {value: 3, enumerable: true, writable: true, configurable: true}); [o.k, Object.keys(o), 'k' in o]"),
     ("getOwnPropertyDescriptor", "var o = {a: 1, get g() { return 2; }}; var d = Object.getOwnPropertyDescriptor(o, 'a'); var e = Object.getOwnPropertyDescriptor(o, 'g'); [d.value, d.writable, typeof e.get, e.value, Object.getOwnPropertyDescriptor(o, 'zz')]"),
